@@ -835,7 +835,7 @@ func (w *c06World) concurrentLogins(id string) {
 	var mu sync.Mutex
 	total, wrongGotSession, confused := 0, 0, 0
 	first := ""
-	rounds := vr.Pick(400, 4000)
+	rounds := vr.Pick(400, 1500)
 	login := func(c cred) {
 		b, _ := json.Marshal(map[string]string{"username": c.user, "password": c.pw})
 		code, m, _, _ := w.post(w.mux, "/api/authenticate", b)
